@@ -595,6 +595,27 @@ func faultChild(args []string) {
 		ch := make(chan int)
 		ro.TapOnFinalize[int](func() { fp.fire("cb") })(ro.FromChannel(ch)).Subscribe(obs)
 		close(ch)
+	case "Never":
+		// the goroutine of Never sends the terminal when the context is cancelled; the subscriber's teardown
+		// (TapOnFinalize's callback) panics on that goroutine
+		ctx, cancel := context.WithCancel(context.Background())
+		ro.TapOnFinalize[struct{}](func() { fp.fire("cb") })(ro.Never()).SubscribeWithContext(ctx, ro.NewObserver(func(struct{}) {},
+			func(err error) { see("E" + renderErr(err)); finished <- struct{}{} }, func() { see("C"); finished <- struct{}{} }))
+		cancel()
+	case "ThrowOnContextCancel":
+		ctx, cancel := context.WithCancel(context.Background())
+		hot := ro.NewUnsafeObservable(func(dest ro.Observer[int]) ro.Teardown { return nil })
+		ro.TapOnFinalize[int](func() { fp.fire("cb") })(ro.ThrowOnContextCancel[int]()(hot)).SubscribeWithContext(ctx, obs)
+		cancel()
+	case "ToChannel":
+		// the subscription is disposed before ToChannel's goroutine (which sleeps 1 ms first) registers its upstream
+		// subscription: AddUnsubscribable then unsubscribes the source at once, on that goroutine, and the source's
+		// teardown panics
+		src := ro.NewUnsafeObservable(func(dest ro.Observer[int]) ro.Teardown { return func() { fp.fire("cb") } })
+		sub := ro.ToChannel[int](1)(src).Subscribe(ro.NewObserver(func(<-chan ro.Notification[int]) {}, func(error) {}, func() {}))
+		sub.Unsubscribe()
+		time.Sleep(50 * time.Millisecond)
+		finished <- struct{}{}
 	case "RawObserver:safe", "RawObserver:unsafe":
 		// the destination is a hand-written Observer (not ro.NewObserver): its NextWithContext panics
 		// inside subscriberImpl.NextWithContext, between mu.Lock() and mu.Unlock() (subscriber.go:176-199)
